@@ -82,7 +82,6 @@ class RRule:
             ex.use('NOT axiomatised:rrule(%s, interval=k, ...) - the value of this call is an unknown sequence (bounded stand-in only)' % F)
             n = fresh_int('rr_opaque_len')
             ex.fact(n >= 0)
-            tag = fresh_int('rr_opaque')
             return n, (lambda st2, j: DT(fresh_int('rr_opaque_o'), fresh_int('rr_opaque_us')))
         ex.use('axiom:dateutil rrule(%s, interval=k>=1, dtstart=a, until=b) = a\', a\'+k units, a\'+2k units, ... <= b with a\' = a.replace(microsecond=0) '
                '(third-party library; validated natively on a sample by rac/C10_ded.validate_rrule_axiom)' % F)
